@@ -110,7 +110,7 @@ func (e *SeqEnv) c07Reads(revs []uint64, keys []string) (*c07Snap, error) {
 }
 
 func c07Setup(c *c07Case) (*SeqEnv, error) {
-	env, err := NewSeqEnv(SeqOpts{Engine: c.Engine, Keys: c.Keys, UseShim: true, Backend: BackendOpts{Skipped: c.Skipped}})
+	env, err := NewSeqEnv(SeqOpts{Engine: strings.TrimSuffix(c.Engine, "+metrics"), Keys: c.Keys, UseShim: true, MetricsOutside: strings.HasSuffix(c.Engine, "+metrics"), Backend: BackendOpts{Skipped: c.Skipped}})
 	if err != nil {
 		return nil, Inconclusivef("engine: %v", err)
 	}
